@@ -383,7 +383,13 @@ class Fuzzer:
         if not cands:
             return None
         inst = self.rng.choice(sorted(cands, key=lambda i: i.name))
-        await inst.activate('10.0.1.%d' % (len(self.w.instances) + self.rng.randint(1, 200)), self.w.now_ms())
+        # live VMs never share an address (the fake worker endpoint resolves the instance by it): draw without replacement
+        self.rng.randint(1, 200)  # keeps the random stream of earlier replays aligned
+        used = {i.ip_address for i in self.w.instances.values()}
+        n = len(self.w.instances) + 1
+        while '10.0.%d.%d' % (1 + n // 250, 1 + n % 250) in used:
+            n += 1
+        await inst.activate('10.0.%d.%d' % (1 + n // 250, 1 + n % 250), self.w.now_ms())
         return {'instance': inst.name}
 
     async def op_deactivate_instance(self):
